@@ -85,3 +85,15 @@ func VV(m MaybeFloat) Float {
 //@   props C08 C04
 //@   nopanic
 //@   inline
+//@ func (Float).ToValue
+//@   props C04
+//@   nopanic
+//@   inline
+//@ func FToD
+//@   props C04
+//@   nopanic
+//@   inline
+//@ func FToV
+//@   props C04
+//@   nopanic
+//@   inline
